@@ -1,5 +1,6 @@
 pub mod vc_diff;
 pub mod vc_rules;
+pub mod vc_io;
 pub mod vc_render;
 pub mod vc_update;
 pub mod vc_gen;
@@ -27,6 +28,7 @@ macro_rules! engines {
 engines! {
     vc_diff::VcDiff => ["C01", "C02", "C03"],
     vc_rules::VcRules => ["C04"],
+    vc_io::VcIo => ["C13"],
     vc_render::VcRender => ["C19"],
     vc_update::VcUpdate => ["C10"],
     vc_gen::VcGen => ["C09"],
